@@ -144,6 +144,13 @@ inline void label(char const* name, bool hit)
     c.first += hit ? 1 : 0;
     c.second += 1;
 }
+// batched form for hot loops: add `hits` of `total` observations to a class
+inline void label(char const* name, std::uint64_t hits, std::uint64_t total)
+{
+    auto& c = stats().classes[name];
+    c.first += hits;
+    c.second += total;
+}
 inline void count(char const* name, std::uint64_t n = 1) { stats().counters[name] += n; }
 inline void excluded_known(char const* tag, std::uint64_t n = 1) { stats().excluded_known[tag] += n; }
 // keep a few written-out cases per sub-property: the first 2 and then reservoir up to 4
